@@ -392,6 +392,25 @@ func (c *Ctx) entryConds() map[*ssa.Function]map[string]bool {
 						if !ok || mc.Fn != ssa.Value(f) {
 							continue
 						}
+						// a closure that is only ever called directly runs where it is called, not where it is made
+						escapes := false
+						for _, ref := range valueReferrers(mc) {
+							if cs, isCall := ref.(ssa.CallInstruction); isCall && cs.Common().Value == ssa.Value(mc) {
+								uses := 0
+								for _, op := range ref.Operands(nil) {
+									if *op == ssa.Value(mc) {
+										uses++
+									}
+								}
+								if uses == 1 {
+									continue
+								}
+							}
+							escapes = true
+						}
+						if !escapes && len(sitesOf[f]) > 0 {
+							continue
+						}
 						u := map[string]bool{}
 						for _, g := range c.info(f.Parent()).necessaryGuards(b) {
 							if a := c.atomOf(g); a != "" {
